@@ -15,7 +15,7 @@ FILES = ["anytree/node/symlinknodemixin.py", "anytree/node/symlinknode.py", "any
 ASSUMPTIONS = ["Python's attribute lookup order (instance dictionary and class attributes before __getattr__) is CPython's; "
                "'every other attribute' = data attributes, i.e. names no node class defines",
                "links are created after their targets (no self-targeting link)"]
-NAMES = ["foo", "bar", "k", "name", "x_1", "__tag__", "_private"]
+NAMES = ["foo", "bar", "k", "name", "x_1", "__tag__", "_private", "kind", "ro"]
 
 
 def gen_cases(tier, seed):
@@ -33,15 +33,16 @@ def gen_cases(tier, seed):
         for _ in range(rng.randint(3, 14 if tier == "quick" else 30)):
             r = rng.random()
             if nobj == 0 or r < 0.12:
-                ops.append(["newplain", [[k, value(8, 9)] for k in rng.sample(NAMES, rng.randint(0, 2))]])
+                kwp = [[k, value(8, 9)] for k in rng.sample(NAMES, rng.randint(0, 2)) if k != "ro"]
+                ops.append(["newplain", kwp] + (["ro"] if rng.random() < 0.25 else []))
                 kinds.append("plain")
                 nobj += 1
             elif r < 0.32:
                 t = rng.randrange(nobj)
-                kw = [[k, value(10, 19)] for k in rng.sample(NAMES, rng.randint(0, 2))]
+                kw = [[k, value(10, 19)] for k in rng.sample(NAMES, rng.randint(0, 2)) if k != "ro"]
                 if kw and rng.random() < 0.3:
                     kw[0][1] = 4          # None as a constructor keyword value
-                ops.append(["newlink", t, kw, rng.choice(["node", "mixin"])])
+                ops.append(["newlink", t, kw, rng.choice(["node", "mixin", "slot", "kind"])])
                 if kw:
                     ops.append(["get", rng.randrange(nobj + 1), kw[0][0]])
                 kinds.append("link")
@@ -117,12 +118,23 @@ def out_lit(x):
     return "(OErr %s)" % ("AttributeError" if x[1] == "AttributeError" else "RecursionError")
 
 
+def cls_lit(c):
+    """class-level attributes of every created object, in creation order"""
+    out = []
+    for o in c["ops"]:
+        if o[0] == "newplain":
+            out.append(kw_lit([["ro", 72]]) if (len(o) > 2 and o[2] == "ro") else "[]")
+        elif o[0] == "newlink":
+            out.append(kw_lit([["kind", 71]]) if o[3] == "kind" else "[]")
+    return L.lst(out)
+
+
 def literal(c, o):
     ops = [op_lit(x) for x in c["ops"]]
     ops = [x for x in ops if x is not None]
     if isinstance(o, dict) and "outs" in o:
-        return "(%s, %s, %s)" % (L.lst(ops), L.lst([out_lit(x) for x in o["outs"]]), L.boolean(o["struct_ok"]))
-    return "(%s, [], false)" % L.lst(ops)
+        return "(%s, %s, %s, %s)" % (L.lst(ops), cls_lit(c), L.lst([out_lit(x) for x in o["outs"]]), L.boolean(o["struct_ok"]))
+    return "(%s, %s, [], false)" % (L.lst(ops), cls_lit(c))
 
 
 def nontrivial_key(c, o):
